@@ -7,7 +7,8 @@ Require Import FV.Gen.C18 FV.C18.Model FV.C18.LemmasSt FV.C18.LemmasFe FV.C18.Le
 (* obligations on the facts regenerated from /repo (Gen/C18.v) *)
 Theorem C18_source_facts :
   struct_callbacks_shape = true /\ struct_generated_methods_shape = true /\
-  floatenum_value_derived_from_index = true /\ floatenum_write_selects_closest = true /\ floatenum_init_shape = true /\
+  floatenum_value_derived_from_index = true /\ floatenum_write_selects_closest = true /\
+  floatenum_write_returns_current_value = true /\ floatenum_init_shape = true /\
   check_limits_shape = true /\ check_function_installed_for_limits = true /\ limit_postfixes = true /\
   limit_datatype_from_base = true /\ limitstype_refuses_inverted = true /\
   activate_control_shape = true /\ self_controlled_shape = true /\ update_target_lookup_by_member = true /\
@@ -46,19 +47,60 @@ Theorem C18_floatenum_value_after_index_update : forall L pre o post,
   Fe.cf (Fe.run L (pre ++ o :: post)) = Fe.shown L (Fe.run L (pre ++ o :: post)).
 Proof. intros L pre o post He Hn. exact (LemmasFe.value_after_index_update L pre o post He Hn). Qed.
 
-(* a write outside the table range is refused without effect; an accepted write selects an index whose value is
-   at minimal distance, returns and caches that value; every table value is writable (inside the range) *)
+(* WRITE OF THE FLOAT PARAMETER, every layout (also a driver-defined write_<idx> that follows an arbitrary script: takes the
+   requested index over, sets ANOTHER index instead, or raises), from every state (so after every history):
+   - a write outside the table range is refused (RangeError) without effect;
+   - otherwise write_<idx> is asked for closest v, an index whose table value has minimal distance to v, and every table value
+     is writable (inside the range);
+   - if write_<idx> raises, the write fails (HardwareError) and NOTHING has changed;
+   - otherwise the cached value, the reply and the updates sent (float, index, float) are the table value of the index that
+     write_<idx> REALLY set; that index is the closest one whenever the driver takes the request over. *)
 Theorem C18_closest : forall L s v, Fe.vdict L <> [] ->
   (let '(s', r) := Fe.step L s (Fe.WriteF v) in
+   let k := Fe.closest v (Fe.vdict L) in
    if ((v <? Fe.vmin (Fe.vdict L)) || (Fe.vmax (Fe.vdict L) <? v))%Z
    then s' = s /\ r = RErr 1
-   else r = ROk [Fe.shown L s'] /\ Fe.cf s' = Fe.shown L s' /\
-        exists x, In (Fe.ci s', x) (Fe.vdict L) /\
-                  forall j y, In (j, y) (Fe.vdict L) -> (Z.abs (x - v) <= Z.abs (y - v))%Z) /\
+   else if LemmasFe.drv_ok L s k
+        then r = ROk [Fe.shown L s'] /\ Fe.cf s' = Fe.shown L s' /\
+             Fe.evs s' = (0, [Fe.shown L s']) :: (1, [Fe.ci s']) :: (0, [Fe.shown L s']) :: Fe.evs s /\
+             (LemmasFe.takes_over L s k = true -> Fe.ci s' = k)
+        else s' = s /\ r = RErr 3) /\
+  (exists x, In (Fe.closest v (Fe.vdict L), x) (Fe.vdict L) /\
+             forall j y, In (j, y) (Fe.vdict L) -> (Z.abs (x - v) <= Z.abs (y - v))%Z) /\
   (forall j y, In (j, y) (Fe.vdict L) -> (Fe.vmin (Fe.vdict L) <= y <= Fe.vmax (Fe.vdict L))%Z).
 Proof.
-  intros L s v Hne. split; [exact (LemmasFe.write_selects_closest L s v Hne)|].
-  intros j y H. exact (LemmasFe.table_in_range (Fe.vdict L) j y H).
+  intros L s v Hne. split; [|split].
+  - pose proof (LemmasFe.write_float_spec L s v) as H. cbv zeta in H.
+    destruct (Fe.step L s (Fe.WriteF v)) as (s', r). cbv zeta.
+    destruct ((v <? Fe.vmin (Fe.vdict L)) || (Fe.vmax (Fe.vdict L) <? v))%Z; [exact H|].
+    destruct (LemmasFe.drv_ok L s (Fe.closest v (Fe.vdict L))); [|exact H].
+    destruct H as (H1 & H2 & H3 & H4). auto.
+  - exact (LemmasFe.write_selects_closest L v Hne).
+  - intros j y H. exact (LemmasFe.table_in_range (Fe.vdict L) j y H).
+Qed.
+
+(* after a write of the float parameter - successful or failed, whatever write_<idx> does with the request - the value
+   belongs to the index: (1) from ANY state a successful write leaves cache = reply = table value of the current index and a
+   failed one (RangeError of the datatype, or write_<idx> raised) leaves the state exactly as it was; (2) hence after every
+   history in which the index was announced once and the float parameter was not assigned since (the guards of the two
+   theorems above: the open findings floatenum-initial-cache and floatenum-assign-float), a further write of the float
+   parameter - successful or not - ends with cache = valuedict[index]. *)
+Theorem C18_floatenum_write_consistent :
+  (forall L s v, let '(s', r) := Fe.step L s (Fe.WriteF v) in
+     match r with
+     | ROk x => Fe.cf s' = Fe.shown L s' /\ x = [Fe.shown L s']
+     | RErr c => s' = s /\ (c = 1 \/ c = 3)
+     end) /\
+  (forall L pre o post v,
+     LemmasFe.establishes L (Fe.run L pre) o = true -> forallb (fun o => negb (LemmasFe.is_setf o)) post = true ->
+     let s := Fe.run L (pre ++ o :: post ++ [Fe.WriteF v]) in Fe.cf s = Fe.shown L s) /\
+  (forall L ops v,
+     LemmasFe.consistent L (Fe.init L) -> forallb (fun o => negb (LemmasFe.is_setf o)) ops = true ->
+     let s := Fe.run L (ops ++ [Fe.WriteF v]) in Fe.cf s = Fe.shown L s).
+Proof.
+  split; [exact LemmasFe.write_float_consistent|]. split.
+  - intros L pre o post v He Hn. exact (LemmasFe.write_float_after_history L pre o post v He Hn).
+  - intros L ops v H0 Hn. apply LemmasFe.value_from_init; auto. rewrite forallb_app, Hn. reflexivity.
 Qed.
 
 (* LIMITS.  For every layout (any subset of a_min / a_max / a_limits, also all three together) and from every state (so in
@@ -128,6 +170,16 @@ Proof. vm_compute. reflexivity. Qed.
 Example C18_demo_floatenum :
   let s := Fe.run Refuted.L_desc [Fe.WriteF 1%Z] in (Fe.ci s, Fe.cf s, rev (Fe.evs s)) = (1%Z, 1%Z, [(0, [1%Z]); (1, [1%Z]); (0, [1%Z])]).
 Proof. vm_compute. reflexivity. Qed.
+(* a driver-defined write_<idx> that answers with index 0 when index 1 is requested: the float write of 0.5 (closest: index 1)
+   ends with index 0 and value, reply and updates of index 0 (1.0); when it raises nothing changes *)
+Definition L_scripted : Fe.layout :=
+  {| Fe.f_labels := Fe.f_labels Refuted.L_desc; Fe.f_ri := false; Fe.f_wi := 3 |}.
+Example C18_demo_floatenum_coerced :
+  let '(s, r) := Fe.step L_scripted (Fe.run L_scripted [Fe.SetI 1%Z; Fe.Script [(1%Z, Some 0%Z)]]) (Fe.WriteF 1%Z) in
+  (r, Fe.ci s, Fe.cf s, Fe.hwi s, firstn 3 (Fe.evs s)) = (ROk [2%Z], 0%Z, 2%Z, 0%Z, [(0, [2%Z]); (1, [0%Z]); (0, [2%Z])]) /\
+  Fe.step L_scripted (Fe.run L_scripted [Fe.SetI 0%Z; Fe.Script [(1%Z, None)]]) (Fe.WriteF 1%Z)
+  = (Fe.run L_scripted [Fe.SetI 0%Z; Fe.Script [(1%Z, None)]], RErr 3).
+Proof. vm_compute. split; reflexivity. Qed.
 Example C18_demo_control :
   let s := Co.run [0; 0; 0] [Co.WriteT 0 1%Z; Co.WriteT 2 5%Z] in
   (Co.by_ s, Co.act s) = (3, [false; false; true]) /\ In (10, [0%Z]) (Co.evs s).
@@ -154,6 +206,7 @@ Print Assumptions C18_no_fault_no_partial_abort.
 Print Assumptions C18_floatenum_value_from_consistent_init.
 Print Assumptions C18_floatenum_value_after_index_update.
 Print Assumptions C18_closest.
+Print Assumptions C18_floatenum_write_consistent.
 Print Assumptions C18_limits_respected.
 Print Assumptions C18_inverted_refused.
 Print Assumptions C18_limits_in_base_range.
